@@ -64,6 +64,22 @@ func Main(args []string) int {
 		return cmdReplay(args[1:])
 	case "selftest":
 		return cmdSelftest(args[1:])
+	case "ssa":
+		l, err := Load(repoDir(), filepath.Join(verifDir(), "harness"), []string{args[1]})
+		if err != nil {
+			fmt.Println(err)
+			return 2
+		}
+		f := l.Func(ModulePath+"/"+args[1], args[2])
+		if f == nil {
+			fmt.Println("not found")
+			return 2
+		}
+		f.WriteTo(os.Stdout)
+		for _, af := range f.AnonFuncs {
+			af.WriteTo(os.Stdout)
+		}
+		return 0
 	}
 	fmt.Println("unknown command", args[0])
 	return 2
@@ -131,6 +147,13 @@ func printResult(res *HarnessResult) {
 		}
 		sort.Strings(ks)
 		fmt.Println("   reached:", strings.Join(ks, " "))
+	}
+	for i, o := range res.Outs {
+		if i < 3 {
+			for _, l := range o {
+				fmt.Println("   OUT", l)
+			}
+		}
 	}
 	for msg, n := range res.EngineErrors {
 		fmt.Printf("   ENGINE-ERROR x%d: %s\n", n, msg)
